@@ -160,6 +160,11 @@ impl Expect<'_> {
             _ => false,
         }
     }
+    /// the client must not see a complete message: the body is short of its declared size, or it
+    /// did not end normally and its framing needs an explicit end
+    pub fn aborted(&self) -> bool {
+        self.short() || (!self.ended && !matches!(self.size, SizeSpec::Sized(_)))
+    }
     pub fn no_body(&self) -> bool {
         self.req.head() || self.resp.bodiless_status()
     }
@@ -212,6 +217,9 @@ impl Expect<'_> {
                 }
             }
         }
+        if st == 101 {
+            return Ok(fr); // after 101 the connection is a tunnel that ends when it closes
+        }
         // connection header: a function of own request + own response
         let eff = self.conn();
         let has_close = head.has_token("connection", "close");
@@ -247,7 +255,7 @@ impl Expect<'_> {
     /// judge a complete transcript (all bytes of this response, stream closed afterwards)
     pub fn check_transcript(&self, wire: &[u8]) -> Result<(), String> {
         let rd = reader::read_response(wire, self.req.head(), true);
-        let aborted = !self.ended || self.short();
+        let aborted = self.aborted();
         match rd {
             ReadOut::Malformed(e) => Err(format!("client cannot parse the response: {e}")),
             ReadOut::Incomplete { head, .. } => {
@@ -302,7 +310,6 @@ pub fn oracle_enc(c: &EncCase, run: &EncRun) -> Result<(), String> {
 }
 
 pub fn enc_known_class(c: &EncCase) -> String {
-    let chunks: Vec<Vec<u8>> = c.chunks.iter().map(|h| unhex(h)).collect();
     if let Some(l) = &c.later {
         if l.ctx(c.ka) != c.req.ctx(c.ka) {
             return "F12-pipelined-context".into();
@@ -313,12 +320,6 @@ pub fn enc_known_class(c: &EncCase) -> String {
     }
     if c.resp.status == 304 && !c.size.eofish() && !c.req.head() {
         return "F2-304-with-body".into();
-    }
-    if (c.req.ver == 10 || c.resp.no_chunking) && c.size == SizeSpec::Stream {
-        return "F18-unframed-stream".into();
-    }
-    if c.size == SizeSpec::Stream && !c.resp.no_chunking && chunks.iter().any(|x| x.is_empty()) {
-        return "F1-empty-chunk".into();
     }
     String::new()
 }
